@@ -113,7 +113,11 @@ def _run_one(args) -> dict:
             from .rules import caches
             caches.report_used(ctx)
         except AnalysisError as ex:
-            return {'id': e.id, 'status': 'analysis-error', 'msg': str(ex), 'expect': e.expect}
+            # like bin/check: violations found before a rule gave up are kept; without any the run is undecided
+            if e.expect == 'noalarm' and not ctx.new_violations():
+                return {'id': e.id, 'status': 'ok', 'expect': e.expect, 'undecided': str(ex)[:200]}
+            if not ctx.new_violations():
+                return {'id': e.id, 'status': 'analysis-error', 'msg': str(ex), 'expect': e.expect}
         from .report import load_known
         known = {(k['property'], k['key']) for k in load_known().get('findings', [])}
         fs = [f for f in ctx.findings if (e.prop, f.key) not in known]
